@@ -9,7 +9,7 @@ import hashlib, json, os, re, shutil
 from . import core, gengen
 
 FAM_DIR = os.path.join(core.ROOT, 'fam', 'gen')
-CONFIGS_QUICK = ('plain', 'keep')
+CONFIGS_QUICK = ('plain', 'keep', 'nocase')      # nocase = change_case(false), only for the documents that opt in (gengen.OPT_IN_CONFIGS)
 
 
 def repo_tag():
@@ -116,6 +116,28 @@ def scrape(text):
     return types, variants, fields
 
 
+def arg_decoders(text):
+    """-> set of 'a::b::Name' whose `impl ::pilota::thrift::Message for Name` contains the field countdown of the ARGUMENT-type
+    decoder (`__pilota_fields_num`: codegen/thrift/mod.rs emits it for keep_unknown_fields && db.is_arg(def_id)): the set of
+    argument types as the generator sees it, read off the emitted code"""
+    out = set()
+    stack = []          # (kind, name, open_index)
+    last = 0
+    mod_re = re.compile(r'pub\s+mod\s+(\w+)\s*$')
+    impl_re = re.compile(r'impl\s+::pilota::thrift::Message\s+for\s+(\w+)\s*$')
+    for idx, ch in _lex_depth(text):
+        seg = text[last:idx]
+        last = idx + 1
+        if ch == '{':
+            m, mi = mod_re.search(seg), impl_re.search(seg)
+            stack.append(('mod', m.group(1), idx) if m else ('impl', mi.group(1), idx) if mi else ('block', None, idx))
+        elif stack:
+            kind, name, oi = stack.pop()
+            if kind == 'impl' and '__pilota_fields_num' in text[oi:idx]:
+                out.add('::'.join([x[1] for x in stack if x[0] == 'mod'] + [name]))
+    return out
+
+
 def _top_level_names(body):
     """first identifier of each comma-separated chunk at nesting depth 0 (attributes skipped)"""
     out, depth, cur = [], 0, []
@@ -153,6 +175,7 @@ class GenBuild:
         self.docs = None
         self.configs = ()
         self.emitted = {}           # cfg -> path of emitted file
+        self.arg_mismatch = []      # [(cfg, type name, 'generator' | 'model')]: argument types of one side only (keep builds)
 
     def variant_names(self, cfg):
         return self.names.get(cfg, {})
@@ -240,7 +263,7 @@ def build(configs=CONFIGS_QUICK, docs=None, release=False):
             shutil.rmtree(tmp_dir, ignore_errors=True)
             os.makedirs(tmp_dir)
             tmp = os.path.join(tmp_dir, cfg + '.rs')
-            entries = [os.path.join(idl_dir, d.name + '.thrift') for d in docs if d.configs is None or cfg in d.configs]
+            entries = [os.path.join(idl_dir, d.name + '.thrift') for d in docs if gengen.doc_in_config(d.configs, cfg)]
             rc, log = core.sh(['timeout', '600', genbin, cfg, tmp] + entries, env=dict(env, RUST_BACKTRACE='0'), timeout=630)
             if rc != 0 or not os.path.exists(tmp):
                 gb.error = 'pilota-build failed on the corpus (%s): %s' % (cfg, '\n'.join(
@@ -278,6 +301,16 @@ def build(configs=CONFIGS_QUICK, docs=None, release=False):
                     names[n] = vs
                 arms.append('        ("%s", "%s") => Some(run::<%s>(c)),' % (cfg, n, path))
             gb.names[cfg] = names
+            if 'keep' in cfg:
+                # the `args` set of the generator (read off the emitted decoders) against the model's is_arg (schema flag `a`:
+                # the types NAMED as a parameter / result type of a method), for every struct of the corpus compiled with retention
+                argd = arg_decoders(full)
+                for n in sch.names_in(cfg):
+                    d = sch.types[n]
+                    if d['kind'] == 'struct' and 'k' not in d['flags']:
+                        gen_arg, model_arg = (cfg + '::' + d['rust']) in argd, 'a' in d['flags']
+                        if gen_arg != model_arg:
+                            gb.arg_mismatch.append((cfg, n, 'generator' if gen_arg else 'model'))
             shutil.rmtree(tmp_dir, ignore_errors=True)
         write_if_changed(os.path.join(out, 'includes.rs'), '\n'.join(includes) + '\n')
         write_if_changed(os.path.join(out, 'dispatch.rs'),
